@@ -94,12 +94,18 @@ def r1_frames(a, tier):
                          f'elements backtrack/merge into the wrong scope', f.loc)
     # abort paths: bound() must re-create the stack on every exit
     b = a.p.func(f'{ENGINE}.bound')
-    fin_ok = False
-    for n in walk_no_defs(b.node):
-        if isinstance(n, ast.Try) and n.finalbody:
-            for c in ast.walk(ast.Module(body=n.finalbody, type_ignores=[])):
-                if isinstance(c, ast.Call) and dotted(c.func) in ('self._initialize_caches', 'self._reset'):
-                    fin_ok = True
+    # path rule (helpers of bound() are run in place): every exit of bound() that follows the with-body has passed a call of
+    # _initialize_caches() / _reset() made AFTER the body
+    from ..rules.common import run_flags
+    from ..rules.frames import generic_hole
+
+    def reinit_flagger(ex, fn, node, state):
+        if dotted(node.func).split('.')[-1] in ('_initialize_caches', '_reset') and 'ran' in state:
+            return ('reinit',)
+        return ()
+    outs_b = run_flags(a, b, reinit_flagger, hole=lambda st: generic_hole(frozenset(st | {'ran'})))
+    after_body = [o for o in outs_b if 'ran' in o.state]
+    fin_ok = bool(after_body) and all('reinit' in o.state for o in after_body)
     ic = a.p.func(f'{CORE}._initialize_caches')
     resets = any(isinstance(n, ast.Assign) and any(norm(t) == 'self.states' for t in n.targets)
                  and isinstance(n.value, ast.Call) and dotted(n.value.func).endswith('ParseStateStack')
